@@ -1,16 +1,13 @@
 SPECIFICATION GSpec
 CONSTANTS
-  Sess = {"s1","s2"}
-  Reqs = {"r1"}
-  Gets = {}
-  Prime <- PrimeMixed
-  Store = FALSE
-  Json = FALSE
-  Stateless = FALSE
-  MaxEmit = 1
-  MaxSreq = 1
-  MaxSa = 0
-  Gates = FALSE
+  Sess = {"s1"}
+  Reqs = {}
+  Gets = {"g1","g2","g3"}
+  Cfgs <- CfgStorePrime
+  MaxEmit = 0
+  MaxSreq = 0
+  MaxSa = 3
+  Gates = TRUE
 VIEW MCView
 INVARIANTS ResumeExact IdsDense IdStable StoreBeforeDeliver CompleteAtEnd CompleteAtRest FinalObtainable RefusedOnlyOnConflict ResponseOnOwnExchange NestedRouting NoCrossSession RoutingEntryLifecycle LockDiscipline
 CHECK_DEADLOCK FALSE
